@@ -1465,11 +1465,16 @@ class _Ops:
         """The forward pre-hook that calls update() was removed from the hook set x's object belongs to."""
         return self.hook_group(x.obj) in self.nohook
 
-    def inherit_hooks(self, src, dst):
-        """Deep copies have their own hook containers with the same content."""
+    def inherit_hooks(self, src, dst, mapping: Optional[Dict[int, int]] = None):
+        """Deep copies have their own hook containers with the same content; objects that shared a container (shallow
+        copies of each other inside one composite) share the copied container too."""
+        if mapping is None:
+            mapping = {}
         g_src = self.hook_group(src)
-        g_new = self.next_group
-        self.next_group += 1
+        if g_src not in mapping:
+            mapping[g_src] = self.next_group
+            self.next_group += 1
+        g_new = mapping[g_src]
         self.obj_group[id(dst)] = (dst, g_new)
         c = dst._forward_pre_hooks
         known = self.cont_group.get(id(c))
@@ -1479,7 +1484,7 @@ class _Ops:
             self.nohook[g_new] = True
         if isinstance(src, CompositeTransform) and isinstance(dst, CompositeTransform):
             for a, b in zip(src.transforms(), dst.transforms()):
-                self.inherit_hooks(a, b)
+                self.inherit_hooks(a, b, mapping)
 
     def op_hook(self, op) -> StepResult:
         """``remove_update_hook()`` / ``register_update_hook()``: the documented protocol for applications that call
@@ -1886,8 +1891,8 @@ class _Ops:
         elif mode == "samedomain":
             # the same world box (cube of normalised coordinates) sampled with another number of points and,
             # half of the time, the other align_corners convention
-            if fam == "spline":
-                return StepResult("skipped")
+            if fam == "spline" or k not in ("P", "B"):
+                return StepResult("skipped")  # re-expression of own parameters is what this mode is about
             nsz = [int(n_) for n_ in op["size"]]
             ac_new = (not old.align_corners()) if op.get("flip") else old.align_corners()
             cube = old.cube()
